@@ -555,7 +555,8 @@ Qed.
 (* ------------------------------------------------------------------ source / main / clock *)
 Lemma life_simple : forall nt T s a s', inv_shape nt s -> inv_life' nt s ->
   match a with
-  | SrcEmit _ | SrcReturnNil | SrcReturnErr | SrcRestart | MainSeeClosed | MainWgDone | MainTimeout | Tick => True
+  | SrcEmit _ | SrcReturnNil | SrcReturnErr | SrcRestart | SrcSetupFail
+  | MainSeeClosed | MainWgDone | MainTimeout | Tick => True
   | _ => False
   end ->
   step nt T s a = Ok s' -> inv_life' nt s'.
@@ -595,6 +596,9 @@ Proof.
     + discriminate.
   - (* Tick *)
     injection H as <-. apply (life_main nt s); auto; try apply (i_g9 _ _ I); try apply (i_gx _ _ I).
+  - (* SrcSetupFail *)
+    destruct (src s); try discriminate. injection H as <-.
+    apply inv_life'_log. apply (life_main nt s); auto; try apply (i_g9 _ _ I); try apply (i_gx _ _ I).
 Qed.
 
 (* ------------------------------------------------------------------ shape *)
@@ -689,6 +693,7 @@ Proof.
   - destruct (nth_error (cbs s) i) as [[n [|[c it] rest]]|] eqn:Hg; try discriminate.
     destruct (try_send nt s c it) as [s1| |] eqn:Hts; try discriminate. injection H as <-.
     apply shape_try_send with (nt := nt) in Hts; auto.
+  - destruct (src s); try discriminate. injection H as <-. apply shape_log. eapply shape_intro; eauto.
 Qed.
 
 (* ------------------------------------------------------------------ init, step, reachable *)
@@ -873,6 +878,7 @@ Proof.
     destruct (L5 n Hn' (or_introl L6)) as [_ Hex].
     pose proof (existsb_false_In _ _ _ _ Hex Hin) as Hown. unfold owns in Hown. cbn [fst] in Hown.
     rewrite Nat.eqb_refl in Hown. discriminate.
+  - destruct (src s); discriminate.
 Qed.
 
 Theorem run_no_panic : forall nt T sch, wf_net nt = true -> run nt T (init nt) sch <> Panic.
@@ -973,6 +979,7 @@ Proof.
   - destruct (nth_error (cbs s) i) as [[m [|[c it] rest]]|]; try discriminate.
     destruct (try_send nt s c it) as [s1| |] eqn:E; try discriminate. injection H as <-.
     rewrite node_set_cbs. apply (Hts _ _ _ E).
+  - destruct (src s); try discriminate. injection H as <-. exact Ho.
 Qed.
 
 Theorem once_entered_stable : forall nt T sch s s' n, run nt T s sch = Ok s' ->
